@@ -426,6 +426,106 @@ def run_stage(st, prop, tier, seed, out, replay=None):
     return cases_path, trace_path
 
 
+# ------------------------------------------------------------------ binding self-test
+
+def _perturb_float(f):
+    """change an encoded float by about 2^-22 relative (third limb), keep the encoding consistent"""
+    if not isinstance(f, dict) or f.get("tag") != "fin":
+        return False
+    m = list(f.get("m") or [])
+    while len(m) < 3:
+        m.append(0)
+    m[2] ^= 1
+    if not any(m):
+        m[2] = 1
+    f["m"] = m
+    f["b"] = "00" + f.get("b", "")[2:] if f.get("b", "").startswith("ff") else "ff" + f.get("b", "")[2:]
+    return True
+
+
+def corrupt_event(e):
+    """corrupt ONE recorded field of an event in place; returns a description or None if nothing applicable"""
+    op = e.get("op", "")
+    if isinstance(e.get("res"), bool):
+        e["res"] = not e["res"]; return "res flipped"
+    if op == "iv.cmp":
+        e["res"]["cmp"] = "lt" if e["res"]["cmp"] != "lt" else "gt"; return "cmp changed"
+    if op == "iv.observe":
+        e["res"]["is_two_sided"] = not e["res"]["is_two_sided"]; return "is_two_sided flipped"
+    if op == "iv.eqhash":
+        e["res"]["eq"] = not e["res"]["eq"]; return "eq flipped"
+    if op == "iv.display":
+        e["res"] = e["res"] + " "; return "display string changed"
+    if op in ("conf.observe",) and e.get("res", {}).get("tag") == "ok":
+        e["res"]["kind"] = e["res"]["kind"] + "x"; return "kind string changed"
+    if op == "conf.cmp" and e.get("res", {}).get("tag") == "ok":
+        e["res"]["eq"] = not e["res"]["eq"]; return "eq flipped"
+    if op == "accum.step":
+        e["regs"][0]["ca"] += 1
+        e["regs"][0]["obs"] = e["regs"][0]["obs"] + "x"; return "count and observation changed"
+    if op == "kahan.step":
+        return "value perturbed" if _perturb_float(e["vals"][0]) else None
+    if op == "build":
+        e["ok"] = not e["ok"]; return "build outcome flipped"
+    if op in ("serde.conf", "serde.interval") and e.get("out", {}).get("tag") == "ok":
+        e["out"]["eq"] = False; return "round-trip equality cleared"
+    if op == "prop.sig" and e.get("out", {}).get("tag") == "ok":
+        e["out"]["res"] = not e["out"]["res"]; return "is_significant flipped"
+    if op == "mean.hook" and e.get("out", {}).get("tag") == "ok":
+        iv = e["out"]["iv"]
+        return "bound perturbed" if _perturb_float(iv.get("lo") or iv.get("hi")) else None
+    out = e.get("out")
+    if isinstance(out, dict):
+        if out.get("tag") == "ok" and isinstance(out.get("iv"), dict):
+            iv = out["iv"]
+            for side in ("lo", "hi"):
+                if isinstance(iv.get(side), dict):
+                    if _perturb_float(iv[side]):
+                        return f"{side} bound perturbed by 2^-22"
+                elif isinstance(iv.get(side), int):
+                    iv[side] += 3; return f"{side} changed by 3"
+            if "k" in iv:
+                iv["k"] = "up" if iv["k"] != "up" else "low"; return "kind changed"
+        if out.get("tag") == "err":
+            out["variant"] = out.get("variant", "") + "X"; return "error variant changed"
+        if out.get("tag") == "panic":
+            out["tag"] = "ok"; return None
+    return None
+
+
+def selftest_stage(st, prop, trace_path):
+    """corrupt single events of a recorded trace and require the validator to reject exactly those"""
+    lines = open(trace_path).read().splitlines()
+    if not lines:
+        return []
+    results = []
+    picks = sorted(set(int(len(lines) * f) for f in (0.11, 0.37, 0.5, 0.73, 0.93)))
+    for pos in picks:
+        # search forward for an event the corruptor knows how to corrupt (and that the property judges)
+        for j in range(pos, min(pos + 400, len(lines))):
+            e = json.loads(lines[j])
+            what = corrupt_event(e)
+            if what:
+                break
+        else:
+            continue
+        # keep the behaviour the event belongs to (events before it back to its "first")
+        start = j
+        while start > 0 and json.loads(lines[start]).get("first") is False:
+            start -= 1
+        part = lines[start:j] + [json.dumps(e, separators=(",", ":"))]
+        pth = trace_path + f".selftest.{j}"
+        open(pth, "w").write("\n".join(part) + "\n")
+        try:
+            res = validate_trace(st, prop, pth, f"{prop}.selftest")
+            rejected = any(b["id"] == e["id"] for b in res["bads"])
+        finally:
+            os.remove(pth)
+        results.append({"stage": st.name, "event": e["id"], "op": e.get("op"), "corruption": what, "rejected": rejected})
+        log(f"[selftest] {prop}/{st.name} event {e['id']} ({e.get('op')}): {what} -> {'rejected' if rejected else 'ACCEPTED'}")
+    return results
+
+
 def write_evidence(prop, tier, seed, out, level, wall, violations, notes, assumptions, exhaustive):
     os.makedirs(os.path.join(ROOT, "evidence"), exist_ok=True)
     cov = {c: n for c, n in sorted(out.cov.items()) if c.startswith(prop + ".")}
@@ -457,12 +557,15 @@ def main(argv, registry):
     prop = argv[1]
     tier = os.environ.get("VERIF_TIER", "quick")
     replay = None
+    selftest = False
     i = 2
     while i < len(argv):
         if argv[i] == "--tier":
             tier = argv[i + 1]; i += 2
         elif argv[i] == "--replay":
             replay = argv[i + 1]; i += 2
+        elif argv[i] == "--selftest":
+            selftest = True; i += 1
         else:
             print("unknown argument", argv[i]); return 2
     if tier not in ("quick", "thorough"):
@@ -485,7 +588,9 @@ def main(argv, registry):
             stages = [s for s in stages if len(nm) > 1 and s.name == nm[1]] or stages[:1]
         for st in stages:
             nbad0 = len(out.bad)
-            run_stage(st, prop, tier, seed, out, replay=replay)
+            paths = run_stage(st, prop, tier, seed, out, replay=replay)
+            if selftest:
+                out.extra.setdefault("selftest", []).extend(selftest_stage(st, prop, paths[1]))
             if st.stop_on_violation and len(out.bad) > nbad0:
                 log(f"[stop] stage {st.name} rejected events; later stages depend on it and are skipped")
                 break
@@ -494,6 +599,13 @@ def main(argv, registry):
     except ToolError as e:
         print(f"TOOL-ERROR property={prop}: {e}")
         return 2
+    if selftest:
+        rs = out.extra.get("selftest", [])
+        acc = [r for r in rs if not r["rejected"]]
+        print(f"SELFTEST property={prop}: {len(rs)} single-field corruptions, {len(rs) - len(acc)} rejected, {len(acc)} accepted")
+        for r in acc:
+            print("  ACCEPTED:", json.dumps(r))
+        return 0 if rs and not acc else 2
     findings = load_findings()
     known = {}
     viol = {}
